@@ -172,8 +172,16 @@ func treeWorldUpd(r *Run, rng *Rng, w *treeWorld, nUpserts int) {
 	w.exec(r, "new")
 	positions := []uint64{0, 1, 2, 3, 5, 8, 1 << 31, 1<<32 - 1, uint64(rng.U32()), uint64(rng.U32())}
 	bn := uint64(1)
+	directedF := []int{0, 1, 34} // directed: once per world, on a tree that already has leaves — the read of the root to build on, the first node read, a node write
 	for i := 0; i < nUpserts; {
 		switch {
+		case len(directedF) > 0 && len(w.updRoots) > 0 && w.tx == nil:
+			w.exec(r, "begin")
+			// (takes nothing from the random stream and leaves bn and i alone: the rest of the world is what it was before this was added)
+			w.exec(r, fmt.Sprintf("upsertF %d %d 0 %d %s", directedF[0], bn, positions[len(directedF)], hx0(common.BytesToHash([]byte{0xd1, 0xec, 0x7e, 0xd0, byte(bn >> 8), byte(bn)}))))
+			r.Count("directed:upsertF-on-non-empty-tree")
+			w.exec(r, "rollback")
+			directedF = directedF[1:]
 		case rng.Chance(10):
 			w.exec(r, "restart")
 		case rng.Chance(10) && len(w.updRoots) > 0:
